@@ -80,9 +80,25 @@ TRUSTED = [
     "ALV.C17.yieldsWith as the reading of WHICH operations are yield points and which locks are held there.  What the "
     "src_* theorems give: the regenerated skeleton is the documented one (decide), the model's program counters are its "
     "yield points in source order with the same held locks, enabledness of every step is the one of its yield point, the "
-    "switches are read from it.  NOT given: that stepPlayer / stepMain are an interpretation of the skeleton's control flow "
-    "(successor of each program counter under each guard) — that part stays hand written, tied by the step-by-step replay; "
-    "any change of a guard or of the order still breaks src_skeleton_is_documented",
+    "switches are read from it; and (src_run_successor) the SUCCESSOR structure of stepPlayer is computed from it: a "
+    "control-flow interpreter of Skel (ALV/Model/C17Next.lean: firstWith / afterWith, nextPc; trusted as the reading of "
+    "sequencing, with, for / while / break, short-circuit guards with go.is_set() as a yield point, try/finally, inlined "
+    "calls) run over the regenerated AudioThread.run gives, for every state and every enabled step of a player, exactly "
+    "the program counter stepPlayer moves to; the same for stepMain inside each call (src_main_successor: play with "
+    "__init__ inlined, close with stop() inlined, pause / play / stop; the guard values are mainGv, the one piece of "
+    "control state besides the yield point is how the manager's lock block of close was left: kMRel none = by the "
+    "break); and (src_player_step_is_interpreted) stepPlayer IS the interpretation of the regenerated run(): enabled "
+    "exactly when the pending yield point is, and then the whole successor state = the effect of the skeleton's "
+    "operation at that yield point (applyYP), then of the local operations passed (applyLocalP), then the next yield "
+    "point as program counter — hand written and trusted there are only applyYP / applyLocalP (what ONE operation of the "
+    "vocabulary does to the state) and playerGv (which fields the guards read); and (src_main_step_is_interpreted) "
+    "the effects of stepMain inside a call likewise: successor state = applyYM of the skeleton's operation at the "
+    "pending yield point, then applyLocalM of the local operations passed (finished = True, creation of the thread "
+    "object, _threads.append, halting = True), up to the program counter (src_main_successor) and the return to the "
+    "script.  Hand written and trusted for stepMain: applyYM / applyLocalM, mainGv, the data a program counter "
+    "carries (which thread), the script level (nextCmd, the logged observation) — tied by the step-by-step replay; any "
+    "change of a guard or of the order still "
+    "breaks src_skeleton_is_documented",
     "call shapes: ALV/Spec/C17.lean PlayCall / openArgs / frames / samplesPerChunk are a hand-written reading of "
     "AudioThread.__init__ (defaults, _STRUCT2PYAUDIO, the setdefault of output_device_index); the driver resolves the "
     "call as written with them (the chunk size of the modelled play IS samplesPerChunk) and the harness compares the "
@@ -174,7 +190,10 @@ MANIFEST = {
             "(CPython threading semantics assumed); the step functions of the models are hand written and validated against "
             "the code step by step along every explored schedule / call by call along every recording history; the "
             "synchronisation skeleton they follow (operations, order, lock nesting, guards, try/finally) and the two variant "
-            "switches are extracted from the source on every run (translator c17_tr.py, theorems src_*).  No "
+            "switches are extracted from the source on every run (translator c17_tr.py, theorems src_*), and the successor "
+            "structure of stepPlayer / of stepMain inside each call is the interpretation of the regenerated methods "
+            "(src_run_successor, src_main_successor), and stepPlayer as a whole is that interpretation with per-operation "
+            "effects (src_player_step_is_interpreted; for stepMain inside a call: src_main_step_is_interpreted).  No "
             "PENDING statement.  Known findings excluded by explicit hypotheses / recognised signatures: wait=True with a "
             "paused player (D10b), the last lock release of a player that left _threads before close looked (D15).  "
             "D26 (close / take with two active recording streams raised TypeError) is repaired in /repo (c60d4c5) and "
@@ -184,7 +203,11 @@ MANIFEST = {
                  "methods of AudioIO / AudioThread is regenerated from lazy_io.py with ast on every check as a Lean value "
                  "(ALV/Gen/C17Src.lean, deep embedding ALV.C17.Skel) and the src_* theorems re-check (decide) that it is the "
                  "skeleton the model documents, that the model's program counters are its yield points with the same held "
-                 "locks, and read the model's switches Cfg.fixed / FCfg.dieFixed from it; step-by-step bisimulation against "
+                 "locks, read the model's switches Cfg.fixed / FCfg.dieFixed from it, and (src_run_successor) that every step of "
+                 "a player thread / (src_main_successor) of the control thread inside play / close / pause / play / stop moves "
+                 "its program counter where a control-flow interpreter of the skeleton (ALV/Model/C17Next.lean) goes from "
+                 "that yield point of the regenerated method, and stepPlayer = that interpreter with per-operation effects "
+                 "(src_player_step_is_interpreted; stepMain inside a call: src_main_step_is_interpreted); step-by-step bisimulation against "
                  "the real code under a deterministic scheduler",
 }
 
@@ -2004,7 +2027,9 @@ def extra_checks(eng):
         "translator": "harness/props/c17_tr.py -> lean/ALV/Gen/C17Src.lean (deep embedding: ALV.C17.Skel)",
         "under_the_translator": ["%s.%s" % m for m in c17_tr.METHODS],
         "theorems": ["src_skeleton_is_documented", "src_variant_is_modelled", "src_run_is_model", "src_play_is_model",
-                     "src_close_is_model", "src_ctl_is_model", "src_yields_drive_the_steps", "src_shutdown"],
+                     "src_close_is_model", "src_ctl_is_model", "src_yields_drive_the_steps", "src_shutdown",
+                     "src_run_successor", "src_run_successor_total", "src_main_successor",
+                     "src_player_step_is_interpreted", "src_main_step_is_interpreted"],
         "switches_read_from_the_source": sw,
         "not_translated": c17_tr.NOT_TRANSLATED,
     }
